@@ -36,8 +36,13 @@ def main(argv):
     if os.environ.get('VERIF_TIER'):
         tier = os.environ['VERIF_TIER']
     seed = int(os.environ.get('VERIF_SEED', '0') or 0)
+    rec = json.load(open(replay)) if replay else None
+    if rec:
+        # every random choice derives from (property, seed, tier): re-running with the recorded seed and tier regenerates
+        # exactly the recorded case (and everything before it) on the current tree
+        seed, tier = int(rec.get('seed', seed)), rec.get('tier', tier)
     ctx = Ctx(pid, tier, seed)
-    ctx.replay = json.load(open(replay)) if replay else None
+    ctx.replay = rec
     mod = importlib.import_module('harness.props.' + pid.lower())
     rc = run_check(ctx, mod)
     sys.exit(rc)
